@@ -154,9 +154,16 @@ def run_scenario(defs, ops, watch):
         waiters = len(conn._read_exception_futures)
         # "it fails with a timeout error exactly at its timeout": the instant a call turns into a timeout error is its start
         # plus its own timeout (virtual time only moves in `time` ops, after the ready queue has been drained)
+        if closed() and getattr(b, "pending_at_close", None) is None:
+            # (a call whose own deadline has already been reached is about to end as a timeout: not counted)
+            b.pending_at_close = {i_ for i_, tk_ in b.tasks.items() if not tk_.done() and loop.time() < b.t0[i_] + b.defs[i_][0] * TICK - 1e-9}
         for i_, tk_ in b.tasks.items():
             if i_ not in b.finished_at and tk_.done():
                 b.finished_at[i_] = loop.time()
+                if b.status(i_) == "err:timeout" and i_ in (getattr(b, "pending_at_close", None) or ()) \
+                        and not any(k == "timeout-instead-of-connection-error" for k, _ in bad):
+                    bad.append(("timeout-instead-of-connection-error", f"call {i_} was waiting when the connection closed; it ended with a timeout "
+                                                                       "error at its own deadline instead of failing with the connection's error at the close"))
                 if b.status(i_) == "err:timeout":
                     want_t = b.t0[i_] + b.defs[i_][0] * TICK
                     if abs(loop.time() - want_t) > 1e-6 and not any(k == "timeout-instant" for k, _ in bad):
@@ -313,6 +320,10 @@ def run_scenario(defs, ops, watch):
             bad.append(("leak", f"all calls ended but handlers={leftover} waiters={len(conn._read_exception_futures)} "
                                 f"request-timers={timers} remain"))
     else:
+        if closed():
+            bad.append(("blocked-on-closed-connection", "the connection is closed and every ready handle has run, yet call(s) "
+                        f"{[i for i, tk in b.tasks.items() if not tk.done()]} are still waiting: a call fails with the connection's error when "
+                        "the connection closes, however it closes"))
         # some calls are still waiting: each of them owns exactly one timeout timer and one waiter, the ended ones none
         pending = sum(1 for tk in b.tasks.values() if not tk.done())
         timers = sum(1 for _, lab in loop.armed_timers() if "handle_timeout" in lab)
